@@ -24,6 +24,9 @@ func isNew[T any](x T) bool     { return true }
 // visited(m, k): the range loop over map m has already produced key k.
 func visited[K comparable, V any](m map[K]V, k K) bool { return true }
 
+// recvs(ch): number of receive operations executed on channel ch so far (ghost).
+func recvs[T any](ch chan T) int { return 0 }
+
 // has(m, k): key k is present in map m.
 func has[K comparable, V any](m map[K]V, k K) bool { _, ok := m[k]; return ok }
 func ite[T any](c bool, a, b T) T {
